@@ -95,6 +95,11 @@ def varstr(r, kind=None, maxlen=70):
         if r.random() < 0.1:
             t += b'\x41'                                # odd byte count
         return bytes([len(t) + 2, 0]) + t
+    if kind == 'ucslong':                               # UCS-2 whose UTF-8 form is longer than the UCS-2 form (up to 3/2), up to the whole payload
+        n = r.choice([60, 73, 74, 75, 76, 80, 100, 107, 108, r.randint(40, 108)]) if maxlen >= 216 else r.randint(2, max(2, maxlen // 2))
+        cps = [r.choice([0x4e2d, 0x20ac, 0x800, 0xffff, 0xd7ff, 0xe000, r.randint(0x800, 0xffff)]) if r.random() < 0.9 else r.choice([0x7ff, 0x41, 0xe4]) for _ in range(n)]
+        t = ucs2(cps)
+        return bytes([len(t) + 2, 0]) + t
     if kind == 'badlen':
         return bytes([r.choice([0, 1]), r.choice([0, 1])]) + rtext(r, r.randint(0, 4))
     if kind == 'badtype':
@@ -118,6 +123,15 @@ def confinfo(r, kind='valid'):
         for n in (a, b_, c):
             out += bytes([n + 2, 1]) + rtext(r, n) if n else bytes([2, 1])
         return out
+    if kind == 'uni':                                   # one long UCS-2 string (any of the three positions), the others short; fits the payload
+        pos = r.randrange(3)
+        long_ = varstr(r, 'ucslong', 216)
+        room = 223 - len(long_) - 4
+        others = [varstr(r, r.choice(['empty', 'empty', 'ascii', 'ucs']), max(2, min(10, room // 2 - 2))) for _ in range(2)]
+        if len(long_) + len(others[0]) + len(others[1]) > 223:
+            others = [bytes([2, 1]), bytes([2, 1])]
+        fields = others[:pos] + [long_] + others[pos:]
+        return b''.join(fields)
     if kind == 'any':
         return b''.join(varstr(r) for _ in range(r.choice([0, 1, 2, 3, 3, 3, 4])))
     b = confinfo(r, 'valid')
@@ -149,6 +163,7 @@ def case(t0, ops):
 def walk(r, nops, srcs, names, qevery, wclaim=3, big=False):
     """random walk over a small universe of sources and NAMEs"""
     ops = []
+    pool = [prodinfo(r) for _ in range(r.choice([2, 2, 3]))]      # repeated product information (identical payloads)
     for k in range(nops):
         dt = r.choice(DTS)
         s = r.choice(srcs)
@@ -164,9 +179,12 @@ def walk(r, nops, srcs, names, qevery, wclaim=3, big=False):
                 d = d + rtext(r, r.randint(1, 3))
             ops.append(M(dt, 60928, s, d, ok))
         elif a < wclaim + 1.5:
-            ops.append(M(dt, 126996, s, prodinfo(r, r.choice(['valid'] * 6 + ['long', 'trunc', 'trunc'])), ok))
+            if r.random() < 0.6:
+                ops.append(M(dt, 126996, s, r.choice(pool), ok))
+            else:
+                ops.append(M(dt, 126996, s, prodinfo(r, r.choice(['valid'] * 4 + ['long', 'trunc', 'trunc'])), ok))
         elif a < wclaim + 3:
-            ops.append(M(dt, 126998, s, confinfo(r, r.choice(['valid'] * 5 + ['any', 'any', 'trunc'] + (['big'] * 2 if big else []))), ok))
+            ops.append(M(dt, 126998, s, confinfo(r, r.choice(['valid'] * 5 + ['any', 'any', 'trunc', 'uni'] + (['big'] * 2 + ['uni'] if big else []))), ok))
         elif a < wclaim + 4.2:
             ops.append(M(dt, 126464, s, pgnlist(r), ok))
         else:
@@ -204,6 +222,15 @@ def gen(seed, tier):
                     M(5, 126998, 10, b'\x0b\x01123456789\x02\x01\x02\x01'), 'Q', M(5, 126998, 10, b'\x02\x01\x0b\x01abcdefghi\x02\x01'), 'Q', M(5, 126998, 10, b'\x02\x01\x02\x01\x02\x01'), 'Q',
                     M(5, 126998, 10, b'\x03\x01a\x03\x01b\x03\x01c'), 'Q', M(5, 126998, 10, b'\x40\x01' + b'x' * 62 + b'\x40\x01' + b'y' * 62 + b'\x40\x01' + b'z' * 62), 'Q']),
         case(3000, [M(0, 60928, 10, claim(N[0])), M(5, 126998, 10, bytes([8, 0]) + ucs2([0x4d, 0xe4, 0x20ac]) + bytes([2, 1, 6, 0]) + ucs2([0x800, 0x7ff])), 'Q']),
+        # UCS-2 strings whose UTF-8 form is longer than the payload (3 bytes per character): 74/75/80/108 characters, in each position
+        case(3000, [M(0, 60928, 10, claim(N[0]))] + sum([[M(5, 126998, 10, bytes([2 + 2 * n, 0]) + ucs2([0x4e2d] * n) + b'\x06\x01Des2\x05\x01Man'), 'Q'] for n in (74, 75, 80, 106)], [])),
+        case(3000, [M(0, 60928, 10, claim(N[0])), M(5, 126998, 10, b'\x02\x01' + bytes([2 + 2 * 80, 0]) + ucs2([0x20ac] * 80) + b'\x03\x01M'), 'Q',
+                    M(5, 126998, 10, b'\x03\x01a\x02\x00' + bytes([2 + 2 * 107, 0]) + ucs2([0xffff] * 107)), 'Q', M(5, 126998, 10, bytes([2 + 2 * 108, 0]) + ucs2([0x800] * 108) + b'\x02\x01\x02\x01'), 'Q',
+                    M(5, 126998, 10, bytes([2 + 2 * 36, 0]) + ucs2([0x4e2d] * 36) + bytes([2 + 2 * 36, 0]) + ucs2([0x20ac] * 36) + bytes([2 + 2 * 36, 0]) + ucs2([0x416] * 36)), 'Q']),
+        # the same product information again after a new claim (move, takeover and return), then a different one: the repeated one is the first
+        case(2000, [M(0, 60928, 10, claim(N[0])), M(5, 126996, 10, pi1), 'Q', M(5, 60928, 11, claim(N[0])), M(5, 126996, 11, pi1), 'Q', M(5, 126996, 11, pi2), 'Q',
+                    M(5, 60928, 11, claim(N[1])), M(5, 60928, 20, claim(N[0])), M(5, 126996, 20, pi1), M(5, 126996, 20, pi2), 'Q', M(5, 126996, 11, pi1), M(5, 126996, 11, pi2), 'Q']),
+        case(2000, [M(0, 127250, 10, b'\0'), M(5, 126996, 10, pi1), M(5, 60928, 10, claim(N[0])), M(5, 126996, 10, pi1), M(5, 126996, 10, pi2), 'Q']),
         # PGN lists of every size class, re-sent shorter and longer
         case(4000, [M(0, 60928, 10, claim(N[0])), M(5, 126464, 10, b'\0' + b'\x00\xee\x01' * 74), M(5, 126464, 10, b'\1' + b'\x14\xf0\x01'), 'Q', M(5, 126464, 10, b'\0' + b'\x00\xee\x01' * 2), 'Q',
                     M(5, 126464, 10, b'\0'), 'Q', M(5, 126464, 10, b'\1' + b'\x01\x00\x00' * 73 + b'\x02\x00\x00'), 'Q', M(5, 126464, 10, b''), M(5, 126464, 10, b'\2\x01\x00\x00'), 'Q']),
@@ -474,7 +501,7 @@ def check(run, replay=None):
                        'information rule, configuration information repeated with other sizes, PGN lists of 0..74 entries, sources 251..255) + request pacing from 16 clock origins '
                        '(0, 2^31 +- k, 2^32 - k) + random walks over small universes of sources and NAMEs with a dump after every message + long histories over up to 13 sources with '
                        'payload filling strings + all 254 slots claimed followed by takeovers + up to 252 unknown sources; messages: claims (8 bytes, shorter, longer), 126996 (valid, over-long, '
-                       'truncated), 126998 (ASCII / UCS-2 / empty / malformed / truncated / payload filling), 126464 (0..74 PGNs, both kinds, other kinds, stray bytes), other PGNs; send failures; '
+                       'truncated; drawn from a pool of 2-3 payloads per history so that identical product information is repeated after claims), 126998 (ASCII / UCS-2 incl. strings of 3-byte-UTF-8 characters up to the whole payload (UTF-8 form up to 324 bytes) / empty / malformed / truncated / payload filling), 126464 (0..74 PGNs, both kinds, other kinds, stray bytes), other PGNs; send failures; '
                        'non-trivial = distinct history containing at least one address claim')
     run.assumptions += ['LP64 build (unsigned long is 64 bits): the pacing arithmetic of the model is the one of this build; the 32-bit clock value is an input of every message',
                         'SendMsg() of the attached node is abstracted to one success flag per handled message (harness: node switched to listen-only for the message)',
